@@ -15,12 +15,13 @@ import Sqfs.Model.ReaderEnv
 import Sqfs.Model.ReaderWalk
 import Sqfs.Model.ReaderTables
 import Sqfs.Model.ReaderMut
+import Sqfs.Model.ReaderSizes
 namespace Driver.C05
-open Sqfs.ReaderBounds Sqfs.ReaderEnv Sqfs.ReaderWalk Sqfs.ReaderTables Sqfs.ReaderMut
+open Sqfs.ReaderBounds Sqfs.ReaderEnv Sqfs.ReaderWalk Sqfs.ReaderTables Sqfs.ReaderMut Sqfs.ReaderSizes
 
 structure St where
   fixed : Bool
-  img : ByteArray := ByteArray.empty
+  img : Image := ⟨ByteArray.empty, 0⟩
   cfg : Option (UInt64 × UInt64) := none
   m : MetaSt := MetaSt.init
   sb : Super := default                         -- `sb` line: the superblock the table/xattr/dir ops use
@@ -30,6 +31,9 @@ structure St where
   fragUsed : UInt64 := 0
   x : XattrSt := XattrSt.init
   xpos : Bool := false                          -- a `xseek` succeeded since `xnew`/`xload` (contract of `xkey`/`xval`)
+  /-- what the operation of the previous line handed to the allocator, as a function of the mutant number (`sens` mode asks
+  every mutant from the state the model reached) -/
+  lastAllocs : Nat → List UInt64 := fun _ => []
 
 def num (s : String) : Option Nat := s.toNat?
 def u64 (s : String) : Option UInt64 := (num s).map (·.toUInt64)
@@ -85,21 +89,33 @@ def fragLookupX (mu : Nat) := if mu == 0 then fragLookup else fragLookupM mu
 def superReadX (mu : Nat) := if mu == 0 then superRead else superReadM mu
 def idTableReqX (mu : Nat) := if mu == 0 then idTableReq else idTableReqM mu
 def fragTableReqX (mu : Nat) := if mu == 0 then fragTableReq else fragTableReqM mu
-def xattrLoadX (mu : Nat) := if mu == 0 then xattrLoad else xattrLoadM mu
+/-- locations beyond this many are not run through `xattrLoad` (its access list grows by `acc ++ [_]` per location:
+quadratic) but through the copy of `ReaderMut`, which keeps one access for all of them; below, the copy is compared with
+the original on every line (`STALE`) -/
+def xloadDirectMax : UInt64 := 4096
+def xattrLoadX (mu : Nat) (s : Super) (x : XattrSt) (io1 : Bool) (tblStart : UInt64) (ids : UInt32) (io2 : Nat → Bool)
+    (starts : Nat → UInt64) : XRes :=
+  if mu == 0 then
+    if xattrIdBlocks ids.toUInt64 ≤ xloadDirectMax then
+      xattrLoad s x io1 tblStart ids (io2 (8 * xattrIdBlocks ids.toUInt64).toNat) starts
+    else xattrLoadM copyId s x io1 tblStart ids io2 starts
+  else xattrLoadM mu s x io1 tblStart ids io2 starts
+def readTableAllocsX (mu : Nat) (tableSize : UInt64) : List UInt64 :=
+  if mu == 0 then readTableAllocs tableSize else readTableAllocsM mu tableSize
 def xattrGetDescX (mu : Nat) := if mu == 0 then xattrGetDesc else xattrGetDescM mu
 def kvReadValueX (mu : Nat) := if mu == 0 then kvReadValue else kvReadValueM mu
 def readdirStepX (mu : Nat) := if mu == 0 then readdirStep else readdirStepM mu
 def dirEntryFromInodeX (mu : Nat) := if mu == 0 then dirEntryFromInode else dirEntryFromInodeM mu
 
 /-- `ReaderEnv.precacheFrag` with the selected `get_block` -/
-def precacheFragX (mu : Nat) (im : ByteArray) (bs : UInt32) (fragIdx : UInt32) (fstart : UInt64) (fword : UInt32) :
+def precacheFragX (mu : Nat) (im : Image) (bs : UInt32) (fragIdx : UInt32) (fstart : UInt64) (fword : UInt32) :
     Except Err UInt64 × List Access :=
   if fragIdx ≥ 1 then (.error .oob, [])
   else getBlockX mu bs .fragBlock fword bs (blkLoad im fstart fword bs)
 
 /-- the stream loop of the harness: `get_buffered_data` / `advance_buffer` until eof or error, and then `extra`
 more calls on the same stream (what a failed call leaves behind is part of the comparison) -/
-def streamLoop (mu : Nat) (fixed : Bool) (im : ByteArray) (bs : UInt32) (words : Array UInt32) (fragIdx fragOff : UInt32)
+def streamLoop (mu : Nat) (fixed : Bool) (im : Image) (bs : UInt32) (words : Array UInt32) (fragIdx fragOff : UInt32)
     (fstart : UInt64) (fword : UInt32) : Nat → Nat → StreamSt → UInt64 → String → List Access → String × List Access
   | 0, _, _, _, out, acc => (out ++ "toolong", acc)
   | fuel + 1, extra, s, diskOff, out, acc =>
@@ -124,10 +140,10 @@ def streamLoop (mu : Nat) (fixed : Bool) (im : ByteArray) (bs : UInt32) (words :
       streamLoop mu fixed im bs words fragIdx fragOff fstart fword fuel extra { s' with bufOff := s'.bufOff + n } diskOff'
         (out ++ toString n ++ " ") acc
 
-def bytesToImage (l : List UInt8) : ByteArray := ByteArray.mk l.toArray
+def bytesToImage (l : List UInt8) : Image := ⟨ByteArray.mk l.toArray, l.length⟩
 
 /-- predicted outcome of `sqfs_meta_reader_read_inode` on one uncompressed block holding `b` -/
-def inodeOp (mu : Nat) (bs : UInt64) (b : ByteArray) : String :=
+def inodeOp (mu : Nat) (bs : UInt64) (b : Image) : String :=
   let n := b.size
   if n < 16 then "err" else
   let ty := (le16 b 0).toNat
@@ -157,18 +173,22 @@ def inodeOp (mu : Nat) (bs : UInt64) (b : ByteArray) : String :=
     let dsz := le32 b 20
     let cnt := (le16 b 32).toNat
     if dsz == 0 then s!"ok {ty} 0" else
-    -- walk the index entries the block actually holds
-    let rec go (k : Nat) (pos : Nat) (szs : List UInt32) : Option (List UInt32) :=
+    -- walk the index entries the block actually holds; `false` = the stream ends inside an entry (that entry is in the
+    -- list when its header was read: the code makes room for it and copies what there is before the read fails)
+    let rec go (k : Nat) (pos : Nat) (szs : List UInt32) : Bool × List UInt32 :=
       match k with
-      | 0 => some szs.reverse
+      | 0 => (true, szs.reverse)
       | k + 1 =>
-        if pos + 12 > n then none else
+        if pos + 12 > n then (false, szs.reverse) else
         let sz := le32 b (pos + 8)
         let nm := (sz + 1).toNat
-        if pos + 12 + nm > n then none else go k (pos + 12 + nm) (sz :: szs)
+        if pos + 12 + nm > n then (false, (sz :: szs).reverse) else go k (pos + 12 + nm) (sz :: szs)
     match go cnt 40 [] with
-    | none => "err"
-    | some szs =>
+    | (false, szs) =>
+      match readInodeDirExtX mu dsz szs with
+      | .error _ => "err"
+      | .ok (_, _, acc) => "err" ++ unsafeTag acc
+    | (true, szs) =>
       match readInodeDirExtX mu dsz szs with
       | .error _ => "err"
       | .ok (_, iu, acc) => s!"ok {ty} {iu.toNat % 4294967296}" ++ unsafeTag acc
@@ -177,6 +197,18 @@ def inodeOp (mu : Nat) (bs : UInt64) (b : ByteArray) : String :=
   | 11 | 12 => fixedSz 12
   | 13 | 14 => fixedSz 8
   | _ => "err"
+
+/-- the request `read_inode_file(_ext)` makes for the inode in `b` (none before the header is complete) -/
+def inodeAllocs (mu : Nat) (bs : UInt64) (b : Image) : List UInt64 :=
+  let n := b.size
+  if n < 16 then [] else
+  match (le16 b 0).toNat with
+  | 2 => if 16 + 16 ≤ n then inodeFileAllocs (readInodeFileX mu (le32 b 28).toUInt64 bs (le32 b 20) (le32 b 24)) else []
+  | 9 => if 16 + 40 ≤ n then inodeFileAllocs (readInodeFileX mu (le64 b 24) bs (le32 b 44) (le32 b 48)) else []
+  | _ => []
+
+/-- requests below this size are not compared (`allocs` line): the objects of the library itself stay below it -/
+def allocsFloor : UInt64 := 65536
 
 def parseGraph (spec : String) : Option (DirGraph × Nat × Nat) :=
   -- nodes separated by ';' : ref:inum:isDir:c1,c2   (first node = root)
@@ -216,7 +248,7 @@ def xCfg (s : St) : MetaCfg := ⟨s.sb.idTableStart, s.sb.bytesUsed, metaSrc s.i
 
 /-- `xall`: the loop of `sqfs_xattr_reader_read_all`, one `kvRead` per pair with the answers the image gives at the
 position reached; returns entries read, sum of the value sizes -/
-def xallLoop (im : ByteArray) (c : MetaCfg) (xs xe : UInt64) : Nat → MetaSt → Nat → Nat → List Access →
+def xallLoop (im : Image) (c : MetaCfg) (xs xe : UInt64) : Nat → MetaSt → Nat → Nat → List Access →
     MetaSt × Except Err (Nat × Nat) × List Access
   | 0, m, n, sum, acc => (m, .ok (n, sum), acc)
   | rem + 1, m, n, sum, acc =>
@@ -240,7 +272,7 @@ def stateNum : DState → Nat
 
 /-- `dirlist`: `sqfs_dir_reader_open_dir` (no dot entries) + `sqfs_dir_reader_read` until the end; the counters are
 `readdirStep`, header and entry fields come from the image through the meta reader model -/
-def dirlistLoop (mu : Nat) (im : ByteArray) (c : MetaCfg) : Nat → MetaSt → (block offset : UInt64) → RdState → (inodeBlock : UInt64) →
+def dirlistLoop (mu : Nat) (im : Image) (c : MetaCfg) : Nat → MetaSt → (block offset : UInt64) → RdState → (inodeBlock : UInt64) →
     (n names refs : Nat) → List Access → String × List Access
   | 0, _, _, _, _, _, n, names, refs, acc => (s!"n={n} names={names} refs={refs} toolong", acc)
   | fuel + 1, m, block, offset, rs, inodeBlock, n, names, refs, acc =>
@@ -307,11 +339,19 @@ def walkOp (fixed : Bool) (limit : Nat) (spec : String) : String :=
       "tree " ++ showWalk (readTree g (n + 2) root) ++ " tar " ++ showWalk (tarWalk true g (n + 3) root)
   | none => "bad-op"
 
-def stepM (mu : Nat) (s : St) (line : String) : St × String :=
+def stepCore (mu : Nat) (s : St) (line : String) : St × String :=
   match words line with
   | ["img", h] => match fromHex h with
       | some b => ({ s with img := bytesToImage b, cfg := none, m := MetaSt.init }, "ok")
       | none => (s, "bad-op")
+  -- `imgz <size> <hex>`: an image of `size` bytes, the given bytes in front, zeroes behind (a sparse file)
+  | ["imgz", n, h] => match num n, fromHex h with
+      | some n, some b =>
+        if n < b.length || n > 1073741824 then (s, "bad-op") else
+        ({ s with img := { bytesToImage b with size := n }, cfg := none, m := MetaSt.init }, "ok")
+      | _, _ => (s, "bad-op")
+  -- `valloc <0|1>`: the harness grants huge requests without memory behind them; nothing to do here
+  | ["valloc", v] => if v = "0" || v = "1" then (s, "ok") else (s, "bad-op")
   | ["mr", a, b] => match u64 a, u64 b with
       | some a, some b => ({ s with cfg := some (a, b), m := MetaSt.init }, "ok")
       | _, _ => (s, "bad-op")
@@ -371,7 +411,8 @@ def stepM (mu : Nat) (s : St) (line : String) : St × String :=
         (s, (match r.1 with | .ok n => s!"ok {n}" | .error _ => "err") ++ unsafeTag r.2)
       | _, _, _, _, _, _, _, _, _, _ => (s, "bad-op")
   | ["inode", bs, h] => match u64 bs, fromHex h with
-      | some bs, some b => if bs == 0 then (s, "bad-op") else (s, inodeOp mu bs (bytesToImage b))
+      | some bs, some b => if bs == 0 then (s, "bad-op") else
+        ({ s with lastAllocs := fun mu => inodeAllocs mu bs (bytesToImage b) }, inodeOp mu bs (bytesToImage b))
       | _, _ => (s, "bad-op")
   | ["dirent", h] => match fromHex h with
       | some b =>
@@ -416,6 +457,9 @@ def stepM (mu : Nat) (s : St) (line : String) : St × String :=
         ({ s with sb := sb }, "ok")
       | _, _, _, _, _, _, _, _, _, _, _, _ => (s, "bad-op")
   | ["idtable"] =>
+      let s := { s with lastAllocs := fun mu => match idTableReqX mu s.sb with
+        | .ok req => readTableAllocsX mu req.tableSize
+        | .error _ => [] }
       match idTableReqX mu s.sb with
       | .error e => ({ s with ids := #[], idUsed := 0 }, "err " ++ e.name)
       | .ok req =>
@@ -430,6 +474,9 @@ def stepM (mu : Nat) (s : St) (line : String) : St × String :=
         | .ok acc => (s, s!"ok {aLe32 s.ids (i.toNat * 4)}" ++ unsafeTag acc)
       | none => (s, "bad-op")
   | ["fragtable"] =>
+      let s := { s with lastAllocs := fun mu => match fragTableReqX mu s.sb with
+        | .ok (some req) => readTableAllocsX mu req.tableSize
+        | _ => [] }
       match fragTableReqX mu s.sb with
       | .error e => ({ s with frags := #[], fragUsed := 0 }, "err " ++ e.name)
       | .ok none => ({ s with frags := #[], fragUsed := 0 }, "ok")
@@ -445,10 +492,12 @@ def stepM (mu : Nat) (s : St) (line : String) : St × String :=
   | ["xnew"] => ({ s with x := XattrSt.init, xpos := false }, "ok")
   | ["xload"] =>
       let st := s.sb.xattrIdTableStart
-      let r := xattrLoadX mu s.sb s.x (readFails s.img st szXattrIdTable) (le64 s.img st.toNat) (le32 s.img (st.toNat + 8))
-        (readFails s.img (st + szXattrIdTable.toUInt64) (8 * (xattrIdBlocks (le32 s.img (st.toNat + 8)).toUInt64).toNat))
-        (fun i => le64 s.img ((st + szXattrIdTable.toUInt64).toNat + 8 * i))
-      ({ s with x := r.st, xpos := false }, showR r.r ++ unsafeTag r.acc)
+      let load := fun (mu : Nat) =>
+        xattrLoadX mu s.sb s.x (readFails s.img st szXattrIdTable) (le64 s.img st.toNat) (le32 s.img (st.toNat + 8))
+          (fun k => readFails s.img (st + szXattrIdTable.toUInt64) k)
+          (fun i => le64 s.img ((st + szXattrIdTable.toUInt64).toNat + 8 * i))
+      let r := load mu
+      ({ s with x := r.st, xpos := false, lastAllocs := fun mu => xattrLoadAllocs (load mu) }, showR r.r ++ unsafeTag r.acc)
   | ["xdesc", i] => match u32 i with
       | some i =>
         let c := xCfg s
@@ -564,6 +613,17 @@ def stepM (mu : Nat) (s : St) (line : String) : St × String :=
       | none => (s, "bad-op")
   | _ => (s, "bad-op")
 
+/-- `allocs`: what the operation of the line before handed to the allocator (requests of `allocsFloor` bytes and more, in
+order); every other operation that is not one of the loaders forgets it, as the harness does -/
+def stepM (mu : Nat) (s : St) (line : String) : St × String :=
+  match words line with
+  | ["allocs"] => (s, "allocs " ++ ",".intercalate (((s.lastAllocs mu).filter (· ≥ allocsFloor)).map toString))
+  | op :: _ =>
+    let (s', out) := stepCore mu s line
+    if op = "idtable" || op = "fragtable" || op = "xload" || op = "inode" then (s', out)
+    else ({ s' with lastAllocs := fun _ => [] }, out)
+  | [] => stepCore mu s line
+
 def step (s : St) (line : String) : St × String := stepM 0 s line
 
 /-- `sens` mode: the answer of the model, the mutants of the operation that answer differently from the same state, and
@@ -573,7 +633,7 @@ def sensStep (s : St) (line : String) : St × String :=
   let op := (words line).headD ""
   let sites := opSites op
   if sites.isEmpty then (s', base ++ "\t") else
-  let killed := (sites.flatMap fun k => [2 * k + 1, 2 * k + 2]).filter fun mu => (stepM mu s line).2 != base
+  let killed := (sites.flatMap siteMutants).filter fun mu => (stepM mu s line).2 != base
   let copy := (stepM copyId s line).2
   (s', base ++ "\t" ++ ",".intercalate (killed.map mutName) ++ (if copy != base then "\tSTALE " ++ copy else ""))
 
@@ -581,8 +641,8 @@ def run (args : List String) : IO Unit := do
   if args.contains "sens-mutants" then
     -- the list of mutants, for the floors table of the check
     for k in [0:siteNames.size] do
-      IO.println (mutName (2 * k + 1))
-      IO.println (mutName (2 * k + 2))
+      for mu in siteMutants k do
+        IO.println (mutName mu)
     return
   let fixed := !(args.contains "current")
   if args.contains "sens" then
